@@ -202,7 +202,8 @@ func monitorC05(c *Ctx, r *BlockRec) {
 					continue
 				}
 				if r.Pre[a]["a.balance"] != r.Post[a]["a.balance"] {
-					c.Fail("C05/not-included/charged", "account %s is party only to a transaction the miner discarded, yet its balance changed %s -> %s", a.Hex(), r.Pre[a]["a.balance"], r.Post[a]["a.balance"])
+					c.Fail("C05/not-included/charged", "block %d (miner %s, income address %s, slot %d): account %s is party only to a transaction the miner discarded, yet its balance changed %s -> %s; included: %v; discarded: %v",
+						b.Height(), b.MinerAddress().Hex(), income.Hex(), r.Deputy, a.Hex(), r.Pre[a]["a.balance"], r.Post[a]["a.balance"], txsSummary(b.Txs), txsSummary(r.Invalid))
 				}
 			}
 		}
